@@ -167,9 +167,11 @@ pub fn run(ctx: &mut Ctx) {
         }
         let mut r = Rng::derive(ctx.seed, &[8, case]);
         // one case in six uses a large tree (up to ~80 points, nesting up to 8)
-        let budget = if case % 6 == 5 { 20 + r.below(60) } else { 2 + r.below(13) };
+        // (choices are DRAWN, not taken from residues of the case number: residues alias - large trees would
+        // never have met planted floats or repeated occurrences)
+        let budget = if r.chance(1, 6) { 20 + r.below(60) } else { 2 + r.below(13) };
         let mut t = tree(&mut r, budget, &names);
-        if case % 4 == 0 {
+        if r.chance(1, 4) {
             // make sure float literals occur (they are where equality is most delicate)
             if let SItem::List(v) = &mut t {
                 let pos = r.below(v.len() + 1);
@@ -217,7 +219,7 @@ pub fn run(ctx: &mut Ctx) {
         // one case in three: the searched item occurs SEVERAL times, at different depths and in
         // both orders (nested first / direct first): "first occurrence in depth-first order" and
         // "every occurrence" only differ from cheaper strategies on such trees
-        if case % 3 == 1 {
+        if r.chance(1, 3) {
             if let SItem::List(v) = &mut t {
                 let nested_first = r.bool();
                 let copy = u.clone();
@@ -300,7 +302,7 @@ pub fn run(ctx: &mut Ctx) {
                     _ => {}
                 }
             }
-            if case % 3 == 0 {
+            if r.chance(1, 3) {
                 s.c.push(tree(&mut r, 4, &names));
             }
             let idx: i32 = match r.below(6) {
